@@ -19,7 +19,7 @@ LEVEL = 'fault_enumeration'
 RULE = ('Runs are (a) precipitation histories (stub 1-3 phases, real Al-Zr; PSD recording on/off) and (b) diffusion histories (single-phase / homogenization, record on/off) '
         'of 1-4 solve calls; after EVERY solve call the model is saved, all objects are dropped ("crash") and a freshly built model of the same configuration loads the file: '
         'every save point of every history is enumerated; file names with and without extension. (c) surrogate runs on the real Al-Zr / Ni-Cr-Al databases: pass-through of each untrained getter, '
-        'reproduction of training data, JSON round trip. Non-trivial = at least one save point with >= 5 recorded steps (a,b), at least 6 compared predictions (c); '
+        'reproduction of training data, JSON round trip. A two-precipitate Al-Mg-Si surrogate world checks training reproduction and the file round trip per phase (incl. impingementFactor). Non-trivial = at least one save point with >= 5 recorded steps (a,b), at least 6 compared predictions (c); '
         'distinct = distinct record digest; signature = (kind, backend/provider, phases, recording option, save points, grid events before a save).')
 ASSUMPTIONS = ['Torn or truncated files are not part of C20 and are not injected; the crash is the loss of all in-memory state between solve calls.',
                'The fresh model is built from the same run record (same configuration).',
